@@ -230,6 +230,16 @@ pub fn check_one(p: &Prepared, cfg: &Cfg, newest: bool, d: &Damage, path: &std::
             f.msg = format!("{}: {}", what, f.msg);
             f
         })?;
+        // the state the surviving header records must also be intact as a whole (its free list included)
+        match catch(|| db.check()) {
+            Ok(Ok(())) => {}
+            Ok(Err(e)) => return Err(Failure::new("dbcheck", format!("{}: opened, but DB::check() reports: {}", what, e))),
+            Err(pn) => {
+                let mut f = Failure::from_panic(pn);
+                f.msg = format!("{}: DB::check() panicked: {}", what, f.msg);
+                return Err(f);
+            }
+        }
         let expected_newest_hit = &p.s_prev;
         let expected_older_hit = &p.s_n;
         if def {
